@@ -42,7 +42,7 @@ def sym_int(x=0, *a):
         return x
     if isinstance(x, SFP):
         return core.cast(x, core.DTI)
-    if isinstance(x, XR):
+    if isinstance(x, (XR, core.EFP)):
         return core.cast(x, core.DTI)
     if isinstance(x, SBool):
         return core._as_num(x)
@@ -57,7 +57,7 @@ def sym_int(x=0, *a):
 def sym_float(x=0.0):
     if isinstance(x, SFP):
         return core.cast(x, core.DT64)
-    if isinstance(x, XR):
+    if isinstance(x, (XR, core.EFP)):
         return x
     if isinstance(x, (SInt, SBV)):
         return core.int_to_float(x)
@@ -88,7 +88,7 @@ class Int(metaclass=_IntMeta):
 
 class _FloatMeta(type):
     def __instancecheck__(cls, x):
-        return isinstance(x, (builtins.float, SFP, XR))
+        return isinstance(x, (builtins.float, SFP, XR, core.EFP))
 
     def __subclasscheck__(cls, c):
         return issubclass(c, builtins.float)
